@@ -110,7 +110,11 @@ func (tran) NewDialer(addr string, sock mangos.Socket) (transport.Dialer, error)
 	d := D(name(addr))
 	d.mu.Lock()
 	d.proto = sock.Info()
+	nd := d.NewDelay
 	d.mu.Unlock()
+	if nd > 0 {
+		time.Sleep(nd) // a slow transport constructor (widens races between NewDialer and Close)
+	}
 	return &tdialer{ctl: d}, nil
 }
 
@@ -351,7 +355,7 @@ type ListenerCtl struct {
 	listening bool
 	closed    bool
 	pipes     []*Pipe
-	ListenErr error // returned by the next Listen calls while non-nil
+	ListenErr error         // returned by the next Listen calls while non-nil
 	NewDelay  time.Duration // how long the transport's NewListener takes
 	created   int
 	maxrx     int
@@ -519,6 +523,8 @@ type DialerCtl struct {
 	pipes   []*Pipe
 	release []Outcome // outcomes handed to hanging dials
 	maxrx   int
+
+	NewDelay time.Duration // how long the transport's NewDialer takes
 }
 
 // Script appends scripted outcomes (consumed one per Dial, then Default applies).
@@ -527,6 +533,9 @@ func (d *DialerCtl) Script(o ...Outcome) {
 	d.script = append(d.script, o...)
 	d.mu.Unlock()
 }
+
+// SetNewDelay makes the transport's NewDialer for this endpoint take d.
+func (d *DialerCtl) SetNewDelay(t time.Duration) { d.mu.Lock(); d.NewDelay = t; d.mu.Unlock() }
 
 // SetDefault sets the outcome used when the script is empty.
 func (d *DialerCtl) SetDefault(o Outcome) { d.mu.Lock(); d.Default = o; d.mu.Unlock() }
@@ -622,7 +631,11 @@ func (t *tdialer) SetOption(n string, v interface{}) error {
 		if i, ok := v.(int); ok {
 			t.ctl.mu.Lock()
 			t.ctl.maxrx = i
+			nd := t.ctl.NewDelay
 			t.ctl.mu.Unlock()
+			if nd > 0 {
+				time.Sleep(nd) // configuring the new transport dialer is slow too (the socket hands it its receive limit)
+			}
 			return nil
 		}
 		return mangos.ErrBadValue
